@@ -2,9 +2,9 @@ package main
 
 import (
 	"fmt"
-	"sort"
 	"go/constant"
 	"go/types"
+	"sort"
 	"strings"
 
 	"golang.org/x/tools/go/ssa"
